@@ -29,7 +29,7 @@ def mc_cfg(pid, **kw):
 def mc_runs(pid, quick):
     if pid == "C10":
         if quick:
-            return [("adversary x read", dict(TamperClasses='{"prefixbad", "softbad", "bodybad", "offsbad"}'))]
+            return [("adversary x read", dict())]
         return [("adversary x read", dict(MaxTamper=3, MaxDown=1)),
                 ("adversary x read, any answer order, 5 servers", dict(NumServers=5, MaxTamper=2, ReadOrder='"any"',
                                                                       TamperClasses='{"prefixbad", "bodybad"}'))]
@@ -45,7 +45,7 @@ def mc_runs(pid, quick):
     if pid == "C14":
         if quick:
             return [("competitors / newer-unrecoverable x check, repair",
-                     dict(MaxVers=4, TamperClasses='{"prefixbad", "bodybad"}', RHs="{3}", Forge="FALSE",
+                     dict(MaxVers=4, TamperClasses='{"prefixbad", "bodybad", "privbad"}', RHs="{3}", Forge="FALSE",
                           OpKinds='{"check", "repair"}', InitHist='"competitors"'))]
         return [("competitors x check, repair", dict(MaxVers=4, MaxTamper=3, TamperClasses='{"prefixbad", "softbad", "bodybad", "privbad"}',
                                                      RHs="{3}", Forge="FALSE", OpKinds='{"check", "repair"}',
@@ -99,7 +99,7 @@ def run(ctx, pid):
         cfg, consts = mc_cfg(pid, **kw)
         ctx.constants["MC " + name] = consts
         ctx.mc("mutable/MCMutableFile", cfg, name="MC %s: %s" % (pid, name), timeout=3000)
-    n = {"C10": 110, "C11": 70, "C14": 100}[pid] if quick else {"C10": 1500, "C11": 800, "C14": 1200}[pid]
+    n = {"C10": 300, "C11": 180, "C14": 220}[pid] if quick else {"C10": 1500, "C11": 800, "C14": 1200}[pid]
     traces = ctx.impl("harness/mutread_driver.py", ["--family", pid, "--n", n], timeout=3000)
     nops = 0
     for tr in traces:
